@@ -13,11 +13,13 @@ use crate::syntax::{self, esc};
 pub struct C13;
 
 fn node_ranges(root: &SyntaxNode) -> HashMap<(usize, usize), bool> {
-    // (start, end) -> all nodes with that range are free of errors
+    // (start, end) -> some node with that range is free of errors. Several nodes can share a
+    // range (a node and its only child; a zero-length error next to an empty node); the statement
+    // is met when the node that was formatted can have been a clean one.
     fn walk(n: &LinkedNode, out: &mut HashMap<(usize, usize), bool>) {
         let r = n.range();
-        let e = out.entry((r.start, r.end)).or_insert(true);
-        *e = *e && !n.erroneous();
+        let e = out.entry((r.start, r.end)).or_insert(false);
+        *e = *e || !n.erroneous();
         for c in n.children() {
             walk(&c, out);
         }
